@@ -398,9 +398,15 @@ impl Component for HubC {
             }
             ops.push("shut 0".into());
             ops.push("len".into());
+            if rng.chance(1, 2) {
+                ops.push("recv 0".into()); // the backlog of a closed receiver is still handed out, oldest first
+            }
             ops.push(format!("pub {topic} 100"));
             ops.push("len".into());
             ops.push("recv 1".into());
+            for _ in 0..rng.below(6) {
+                ops.push("recv 0".into()); // drained: then `gone`
+            }
             ops.push(format!("pub {topic} 101"));
             ops.push("recv 1".into());
             ops.push("shut 0".into());
@@ -784,6 +790,18 @@ impl Component for HubC {
                 if c >= self.conns.len() {
                     return "bad-op".into();
                 }
+                if self.conns[c].rx.is_none() {
+                    // a receiver closed with `Receiver::close()` (op `shut`) still hands its backlog out: no message is
+                    // lost; once it is drained the receiver is gone like a dropped one
+                    let Some(rx) = self.conns[c].shut_rx.as_mut() else { return "gone".into() };
+                    return match rx.try_recv() {
+                        Ok(line) => {
+                            mon.count("recv-after-shut");
+                            self.check_line(c, &line, mon)
+                        }
+                        Err(_) => "gone".into(),
+                    };
+                }
                 let Some(rx) = self.conns[c].rx.as_mut() else { return "gone".into() };
                 match rx.try_recv() {
                     Ok(line) => self.check_line(c, &line, mon),
@@ -839,6 +857,13 @@ impl Component for HubC {
         for c in 0..self.conns.len() {
             loop {
                 let line = match self.conns[c].rx.as_mut().map(|rx| rx.try_recv()) {
+                    Some(Ok(l)) => l,
+                    _ => break,
+                };
+                self.check_line(c, &line, mon);
+            }
+            loop {
+                let line = match self.conns[c].shut_rx.as_mut().map(|rx| rx.try_recv()) {
                     Some(Ok(l)) => l,
                     _ => break,
                 };
